@@ -9,6 +9,7 @@ log=$(mktemp)
 VERIF_BUDGET_S=$budget VERIF_TSAN_BUDGET_S=${TSAN_BUDGET:-20} bin/vcheck $prop --tier quick > $log 2>&1
 rc=$?
 git -C /repo checkout -- lib include products
+git -C /verif checkout -- evidence 2>/dev/null   # the evidence of a run on a deliberately broken tree is not the record to keep
 if [ $rc -eq 1 ]; then echo "CAUGHT rc=1: $(grep -m1 '^VIOLATION' $log)"; grep -m1 -A2 '^REPLAY' $log | cut -c1-300
 elif [ $rc -eq 0 ]; then echo "MISSED rc=0: $(tail -1 $log | cut -c1-200)"
 else echo "TROUBLE rc=$rc"; tail -5 $log | cut -c1-300; fi
